@@ -72,7 +72,9 @@ func c15One(o *out, l c15Layout, user, pw string) {
 	}
 	// the sanitized text: exactly the text with each password literal replaced
 	o.checked()
-	want := strings.Replace(text, pwlit, "[REDACTED]", -1)
+	// (built by position: an empty password's literal '' may also occur inside the user name)
+	const marker = "\x01\x02PW\x02\x01"
+	want := strings.Replace(l.build(user, marker), marker, "[REDACTED]", -1)
 	if user == "with password" || strings.Contains(strings.ToLower(user), "password") {
 		// a user name that itself contains the clause keywords is redacted inside the name as well (finding)
 		if san != want {
